@@ -329,10 +329,10 @@ def run_vector(vec, emb, pool, eid, recv=None, arg=None):
         arg = build(vec["arg"], emb, pool)
     pre = pj.tier(recv)
     argpre = pj.tier(arg) if arg is not None else NONE
-    buf = io.StringIO()
+    cap = common.Capture()
     st, pe, ret = "ok", False, None
     try:
-        with contextlib.redirect_stdout(buf):
+        with cap:
             ret = call_op(vec["op"], vec["args"], recv, arg, emb, pool)
     except Exception as ex:  # noqa
         st = type(ex).__name__
@@ -360,7 +360,7 @@ def run_vector(vec, emb, pool, eid, recv=None, arg=None):
         "id": eid, "fam": "tier", "op": vec["op"], "args": vec["args"], "pre": pre, "arg": argpre,
         "st": st, "pe": pe, "ret": retproj, "post": postproj,
         "argpost": argpostproj, "alias": bool(alias),
-        "out": buf.getvalue() != "", "arith": True, "exactfp": emb.dyadic,
+        "out": cap.any, "arith": True, "exactfp": emb.dyadic,
         "rawwf": raw_wf(rettier) and raw_wf(recv),
         "validok": validate_agrees(rettier) and validate_agrees(recv),
         "offgrid": 0, "emb": emb.name, "pool": next((k for k, v in POOLS.items() if v is pool), "ascii"),
